@@ -245,13 +245,11 @@ theorem force_writes_contained (c : PlanCfg) (sp : PlanSpec) (hd : c.diffMode = 
   · exact fromIn _ (excOps_in sp c.root c.coreDir c.outDir c.outputPackage c.debugLog) o ho
   · have h := coreOps_in sp c.debugLog c.outDir c.coreDir
     rw [ht] at h
-    rcases ho with ho | ho <;> exact fromIn _ h o ho
+    exact fromIn _ h o ho
   · exact fromIn _ (modelOps_in sp c.outDir c.coreDir c.debugLog) o ho
-  · rcases ho with ho | ho
-    · exact fromIn _ (endpointOps_in sp c.debugLog c.outDir c.coreDir 0) o ho
-    · exact fromIn _ (endpointOps_in sp c.debugLog c.outDir c.coreDir 1) o ho
+  · exact fromIn _ (endpointOps_in sp c.debugLog c.outDir c.coreDir 0) o ho
   · exact fromIn _ (clientOps_in sp c.debugLog c.outDir c.coreDir) o ho
-  · exact fromIn _ (mockOps_in sp c.debugLog c.outDir c.coreDir 2) o ho
+  · exact fromIn _ (mockOps_in sp c.debugLog c.outDir c.coreDir 1) o ho
   · -- rich __init__.py
     intro p hp _
     split at ho
@@ -266,7 +264,7 @@ theorem force_writes_contained (c : PlanCfg) (sp : PlanSpec) (hd : c.diffMode = 
     · cases ho
     · refine fromIn _ (postOps_in ?_) o ho
       intro p hp
-      rcases generatedPy_under sp c.outDir c.coreDir 2 c.richInit p hp with h | h
+      rcases generatedPy_under sp c.outDir c.coreDir 1 c.richInit p hp with h | h
       · exact h
       · rw [ht] at h; exact h
 
